@@ -30,6 +30,7 @@ type c41Rule struct {
 	Grade  string
 	Protos []string
 	Chacha bool
+	Dyn    bool // Rule.DynamicRecord
 }
 
 type c41Srv struct {
@@ -52,7 +53,18 @@ type c41Cli struct {
 	Curves   []uint16
 	Protos   []string
 	SNI      string
-	Cache    bool // two handshakes sharing a client session cache
+	Cache    bool   // two handshakes sharing a client session cache
+	SNI2     string // server name of the second handshake (another rule may apply to it); "=" means same as SNI
+	// Tail > 0: the server first writes Warm bytes in one Write (more than the 1 MB after which a
+	// DynamicRecord connection switches to 16384-byte records) and then Tail bytes in a second Write
+	Warm, Tail int
+}
+
+func (c *c41Cli) sni(round int) string {
+	if round == 1 && c.Cache && c.SNI2 != "=" {
+		return c.SNI2
+	}
+	return c.SNI
 }
 
 var c41TicketKey = [32]byte{1, 2, 3, 4, 5, 6, 7, 8, 9, 10, 11, 12, 13, 14, 15, 16, 17, 18, 19, 20, 21, 22, 23, 24, 25, 26, 27, 28, 29, 30, 31, 32}
@@ -107,7 +119,7 @@ func (s *c41Srv) build() *bfe_tls.Config {
 	if s.HasRules {
 		sr := &sniRules{bySNI: map[string]*bfe_tls.Rule{}}
 		for name, r := range s.Rules {
-			rule := &bfe_tls.Rule{Grade: r.Grade, NextProtos: fixedProtos(r.Protos), Chacha20: r.Chacha}
+			rule := &bfe_tls.Rule{Grade: r.Grade, NextProtos: fixedProtos(r.Protos), Chacha20: r.Chacha, DynamicRecord: r.Dyn}
 			if name == "" {
 				sr.def = rule
 			} else {
@@ -119,9 +131,11 @@ func (s *c41Srv) build() *bfe_tls.Config {
 	return cfg
 }
 
-func (c *c41Cli) build(cache tls.ClientSessionCache) *tls.Config {
+func (c *c41Cli) build(cache tls.ClientSessionCache) *tls.Config { return c.buildFor(cache, c.SNI) }
+
+func (c *c41Cli) buildFor(cache tls.ClientSessionCache, sni string) *tls.Config {
 	cfg := &tls.Config{MinVersion: c.Min, MaxVersion: c.Max, CipherSuites: append([]uint16{}, c.Suites...),
-		InsecureSkipVerify: true, ServerName: c.SNI, NextProtos: c.Protos, ClientSessionCache: cache}
+		InsecureSkipVerify: true, ServerName: sni, NextProtos: c.Protos, ClientSessionCache: cache}
 	for _, cv := range c.Curves {
 		cfg.CurvePreferences = append(cfg.CurvePreferences, tls.CurveID(cv))
 	}
@@ -276,7 +290,8 @@ type pairResult struct {
 	inconclusive   bool
 }
 
-func runPair(srvCfg *bfe_tls.Config, cliCfg *tls.Config, c2s, s2c []byte) (res pairResult) {
+func runPair(srvCfg *bfe_tls.Config, cliCfg *tls.Config, c2s []byte, s2cWrites ...[]byte) (res pairResult) {
+	s2c := bytes.Join(s2cWrites, nil)
 	cEnd, sEnd := bufPipe()
 	wd := newWatchdog(90*time.Second, cEnd, sEnd)
 	type srvOut struct {
@@ -303,9 +318,11 @@ func runPair(srvCfg *bfe_tls.Config, cliCfg *tls.Config, c2s, s2c []byte) (res p
 			o.note = "server received different bytes"
 			return
 		}
-		if _, err := srv.Write(s2c); err != nil {
-			o.note = "server write: " + err.Error()
-			return
+		for _, wr := range s2cWrites { // one Conn.Write per element
+			if _, err := srv.Write(wr); err != nil {
+				o.note = "server write: " + err.Error()
+				return
+			}
 		}
 		o.ok = true
 		// wait for the client's close
@@ -406,13 +423,33 @@ func c41CheckNeg(tb ev.TB, rec *ev.Rec, s *c41Srv, c *c41Cli, dataLen int) {
 	var cache tls.ClientSessionCache
 	rounds := 1
 	if c.Cache {
-		cache = tls.NewLRUClientSessionCache(4)
+		cache = &anyKeyCache{} // like a browser that keys its sessions by address, not by server name
 		rounds = 2
 	}
 	srvCfg := s.build()
 	for round := 0; round < rounds; round++ {
-		c2s, s2c := patternBytes(dataLen, 0x5a), patternBytes(dataLen/2+1, 0xc3)
-		res := runPair(srvCfg, c.build(cache), c2s, s2c)
+		sni := c.sni(round)
+		if round == 1 {
+			// the second connection is judged against the rule that applies to *it*
+			exp = c41Model(s, c.Min, legacy, c.Suites, cliCurves, sni)
+			if sni != c.SNI {
+				rec.Class("neg/second-under-other-sni")
+			}
+		}
+		c2s := patternBytes(dataLen, 0x5a)
+		s2cw := [][]byte{patternBytes(dataLen/2+1, 0xc3)}
+		if c.Tail > 0 && round == 0 {
+			c2s = patternBytes(1+dataLen%3000, 0x5a)
+			s2cw = [][]byte{patternBytes(c.Warm, 0xc3), patternBytes(c.Tail, 0x3c)}
+			rec.Class("neg/warm-then-tail")
+			if r := s.rule(sni); r != nil && r.Dyn {
+				rec.Class("neg/warm-then-tail/dynamic-record-rule")
+				if m := c.Tail % 16384; c.Tail > 16384 && m >= 1 && m <= 64 {
+					rec.Class("neg/warm-then-tail/dynamic-record-rule/short-remainder")
+				}
+			}
+		}
+		res := runPair(srvCfg, c.buildFor(cache, sni), c2s, s2cw...)
 		if res.inconclusive {
 			rec.Excluded("watchdog")
 			return
@@ -473,7 +510,7 @@ func c41CheckNeg(tb ev.TB, rec *ev.Rec, s *c41Srv, c *c41Cli, dataLen int) {
 				curvesOK = true
 			}
 		}
-		if !contains16(c41Enabled(s, s.rule(c.SNI), v, curvesOK), suite) {
+		if !contains16(c41Enabled(s, s.rule(sni), v, curvesOK), suite) {
 			si := suiteByID(suite)
 			key := "suite-not-enabled"
 			if si != nil {
@@ -487,6 +524,9 @@ func c41CheckNeg(tb ev.TB, rec *ev.Rec, s *c41Srv, c *c41Cli, dataLen int) {
 				case s.Suites != nil && !contains16(s.Suites, suite):
 					key = "suite-not-in-server-list"
 				}
+			}
+			if round == 1 && res.srv.DidResume {
+				key = "resumed-" + key
 			}
 			rec.Fail(tb, key, w, "negotiated suite %04x is not enabled by the server for this connection (grade %s, version %s)", suite, exp.grade, versName(v))
 			return
@@ -652,6 +692,16 @@ func c41CheckScsv(tb ev.TB, rec *ev.Rec, k *c41Scsv) {
 	}
 }
 
+// anyKeyCache hands the last stored session back whatever the key (std keys by
+// ServerName; real clients may key by address, so a session made under one
+// server name can be offered under another).
+type anyKeyCache struct {
+	last *tls.ClientSessionState
+}
+
+func (c *anyKeyCache) Get(key string) (*tls.ClientSessionState, bool) { return c.last, c.last != nil }
+func (c *anyKeyCache) Put(key string, cs *tls.ClientSessionState)     { c.last = cs }
+
 // capCache remembers the last session a std client stored.
 type capCache struct {
 	last *tls.ClientSessionState
@@ -734,7 +784,7 @@ func drawSrv(rt *rapid.T) *c41Srv {
 				continue
 			}
 			s.Rules[name] = c41Rule{Grade: rapid.SampledFrom([]string{"A+", "A", "B", "C", "C"}).Draw(rt, "grade"),
-				Protos: drawProtos(rt, "ruleprotos"), Chacha: rapid.Bool().Draw(rt, "chacha")}
+				Protos: drawProtos(rt, "ruleprotos"), Chacha: rapid.Bool().Draw(rt, "chacha"), Dyn: rapid.Bool().Draw(rt, "dynrec")}
 		}
 	}
 	s.Poodle = rapid.Bool().Draw(rt, "poodle")
@@ -758,6 +808,18 @@ func drawCli(rt *rapid.T) *c41Cli {
 	c.Protos = drawProtos(rt, "cliprotos")
 	c.SNI = rapid.SampledFrom(c41SNIs).Draw(rt, "sni")
 	c.Cache = rapid.IntRange(0, 3).Draw(rt, "cache") == 0
+	c.SNI2 = "="
+	if c.Cache && rapid.Bool().Draw(rt, "othersni") {
+		c.SNI2 = rapid.SampledFrom(c41SNIs).Draw(rt, "sni2")
+	}
+	if rapid.IntRange(0, 7).Draw(rt, "warm") == 0 {
+		c.Warm = 1<<20 + rapid.IntRange(1, 5000).Draw(rt, "warmextra")
+		k := rapid.IntRange(0, 3).Draw(rt, "tailk")
+		c.Tail = k*16384 + rapid.IntRange(-3, 70).Draw(rt, "taildelta")
+		if c.Tail < 1 {
+			c.Tail = 1
+		}
+	}
 	return c
 }
 
@@ -795,6 +857,23 @@ func TestC41(t *testing.T) {
 		}
 	}
 	dataLen := ev.N(20000, 65536)
+	// deterministic: a session made under a permissive rule is offered again under a stricter rule
+	// (other server name); and the DynamicRecord write path around multiples of 16384 after the 1 MB ramp
+	for _, suite := range []uint16{0x0005, 0xc011, 0xcca8, 0xc02f} {
+		for _, strict := range []c41Rule{{Grade: "A", Chacha: true}, {Grade: "B", Chacha: true}, {Grade: "C", Chacha: false}, {Grade: "C", Chacha: true}} {
+			srv := &c41Srv{Cert: "rsa", HasRules: true, Rules: map[string]c41Rule{
+				"a.verif.example": {Grade: "C", Chacha: true}, "b.verif.example": strict}}
+			cli := &c41Cli{Min: vTLS10, Max: vTLS12, Suites: []uint16{suite, 0x002f}, SNI: "a.verif.example", Cache: true, SNI2: "b.verif.example"}
+			c41CheckNeg(t, rec, srv, cli, 500)
+		}
+	}
+	for _, suite := range []uint16{0xc02f, 0xc013, 0x0005} {
+		for _, tail := range []int{16384, 16384 + 1, 16384 + 64, 16384 + 65, 2*16384 + 30, 3*16384 - 1} {
+			srv := &c41Srv{Cert: "rsa", HasRules: true, Rules: map[string]c41Rule{"": {Grade: "C", Dyn: true}}}
+			cli := &c41Cli{Min: vTLS10, Max: vTLS12, Suites: []uint16{suite}, SNI2: "=", Warm: 1<<20 + 100, Tail: tail}
+			c41CheckNeg(t, rec, srv, cli, 500)
+		}
+	}
 	rapid.Check(t, func(rt *rapid.T) {
 		if rapid.IntRange(0, 3).Draw(rt, "kind") == 0 {
 			c41CheckScsv(rt, rec, drawScsv(rt))
